@@ -17,7 +17,7 @@ from contracts.C13 import F, G, PI, R, V_fr, V_sphere
 from contracts.common import col, nof, sym_tree
 from pyvc.lemmas import lemma as _lemma, use as _use
 from pyvc.spec import Registry
-from pyvc.values import NArr, Obj, Opaque, PList, Sym, fresh_name, to_z3
+from pyvc.values import NArr, Obj, Opaque, PList, Sym, fresh, fresh_name, to_z3
 
 VOL = "swcgeom/analysis/volume.py"
 VO = "swcgeom/utils/volumetric_object.py"
@@ -57,6 +57,7 @@ VSF = z3.Function("V_sphere_frustum", z3.RealSort(), z3.RealSort(), z3.RealSort(
 
 
 VFR = z3.Function("V_frustum", z3.RealSort(), z3.RealSort(), z3.RealSort(), z3.RealSort())  # opaque name of V_fr_tot
+VSPH = z3.Function("V_sphere", z3.RealSort(), z3.RealSort())  # opaque name of V_sphere (whole-tree statement)
 
 
 # ghost vocabulary for the Monte-Carlo objects: SDF handles are terms, MU is "the measure of the set the handle denotes"
@@ -325,6 +326,244 @@ def _make_fuv_usable_at_call_sites(Rg):
     c._c14_wrapped = True
 
 
+# ===========================================================================
+# _get_volume_frustum_cone: the summation over the tree (traverse client rule)
+#
+# Ghost vocabulary of the whole-tree statement (definitional axioms are stated by `tree_vocabulary`, which is the
+# ghost_entry of the contracts below: it runs in the carrier's own proof and at call sites alike):
+#   NK(x), KID(x, k), RANK(c)  children of node x in table order (the order in which `traverse` hands their values to `leave`)
+#   NDIST(a, b)                distance between the centres of nodes a and b (the non-negative root of the squared distance);
+#                              its defining property NDIST >= 0, NDIST^2 = |a - b|^2 is instantiated by hand at the edges the
+#                              leave step looks at (a nonlinear fact under a quantifier would poison every obligation)
+#   SHARE(x)                   what node x contributes: sphere(x) + [level >= 2] sum over its child edges of the frustum
+#                              - [level >= 3] the two sphere/frustum intersections of each child edge
+#                              - [level >= 5] the Monte-Carlo terms (pairs of child frusta outside the node's sphere)
+#   SUMV(S)                    sum of SHARE over a finite node set S:  SUMV({}) = 0,  SUMV(S + x) = SUMV(S) + SHARE(x) for x not in S
+MAXK = 3  # numbers of children the leave step is run for: 0..MAXK (that no node has more is a precondition, proved at the call)
+_B = z3.BoolSort()
+NK = z3.Function("children_count", _I, _I)
+KID = z3.Function("child", _I, _I, _I)
+RANK = z3.Function("child_rank", _I, _I)
+NDIST = z3.Function("node_distance", _I, _I, _Re)
+SHARE = z3.Function("node_share", _I, _Re)
+SUMV = z3.Function("sum_of_node_shares", z3.ArraySort(_I, _B), _Re)
+MCV = z3.Real("monte_carlo_only_estimate")  # what the (assumed) level-10 worker returns
+EMPTY = z3.K(_I, z3.BoolVal(False))
+
+
+def tpos(t, x):
+    return [z3.Select(col(t, a).arr, x) for a in "xyz"]
+
+
+def trad(t, x):
+    return z3.Select(col(t, "r").arr, x)
+
+
+def all_nodes(n):
+    x = z3.Int(fresh_name("x"))
+    return z3.Lambda([x], z3.And(x >= 0, x < n))
+
+
+def share_term(t, acc, x, nk=NK, kid=KID):
+    """SHARE(x) written out for a node with at most MAXK children"""
+    zero = z3.RealVal(0)
+    cn, rn = tpos(t, x), trad(t, x)
+    ks = [kid(x, z3.IntVal(j)) for j in range(MAXK)]
+    geo = [(tpos(t, c), trad(t, c), NDIST(x, c)) for c in ks]
+    has = [nk(x) > j for j in range(MAXK)]
+    frusta = sum((z3.If(has[j], VFR(rn, rc, d), zero) for j, (cc, rc, d) in enumerate(geo)), zero)
+    ends = sum((z3.If(has[j], VSF(rn, rc, d) + VSF(rc, rn, d), zero) for j, (cc, rc, d) in enumerate(geo)), zero)
+    fr_h = [SDF_FRUSTUM(*cn, *cc, rn, rc) for cc, rc, d in geo]
+    sp_h = SDF_SPHERE(*cn, rn)
+    pairs = sum((z3.If(has[j], MU(SDF_OP["subtract"](SDF_OP["intersect"](fr_h[i], fr_h[j]), sp_h)), zero)
+                 for i in range(MAXK) for j in range(i + 1, MAXK)), zero)
+    return VSPH(rn) + z3.If(acc >= 2, frusta, zero) - z3.If(acc >= 3, ends, zero) - z3.If(acc >= 5, pairs, zero)
+
+
+def tree_vocabulary(E, old):
+    """DEFINITIONS of the ghost symbols over the entry state (each symbol provably exists on any table: children can be
+    enumerated in table order, a distance is the non-negative root of a sum of squares, a finite sum is a fold)."""
+    t, acc = old["tree"], to_z3(old["accuracy"], "int") if not isinstance(old["accuracy"], str) else None
+    if acc is None:
+        acc = z3.IntVal({"low": 3, "middle": 5, "high": 8}.get(old["accuracy"], 0))
+    key = ("c14-vocabulary", col(t, "pid").uid)
+    if any(isinstance(k, tuple) and k and k[0] == "c14-vocabulary" and k != key for k in E.ghost):
+        from pyvc.engine import Unsupported
+
+        raise Unsupported("C14 vocabulary: two different trees in one proof")
+    if key in E.ghost:
+        return
+    E.ghost[key] = True
+    n, P = nof(t), col(t, "pid").arr
+    x, c, k, k2 = (z3.Int(fresh_name(a)) for a in ("x", "c", "k", "m"))
+    S = z3.Const(fresh_name("S"), z3.ArraySort(_I, _B))
+    Rn = lambda a: z3.And(a >= 0, a < n)
+    sel = z3.Select
+    # children in table order (same axioms as pyvc/traverse_rule.py states for its per-call functions)
+    E.assume(z3.ForAll([x], NK(x) >= 0))
+    E.assume(z3.ForAll([x, k], z3.Implies(z3.And(0 <= k, k < NK(x)), z3.And(Rn(KID(x, k)), sel(P, KID(x, k)) == x, RANK(KID(x, k)) == k))))
+    E.assume(z3.ForAll([x, k, k2], z3.Implies(z3.And(0 <= k, k < k2, k2 < NK(x)), KID(x, k) < KID(x, k2))))
+    E.assume(z3.ForAll([c], z3.Implies(z3.And(Rn(c), sel(P, c) >= 0), z3.And(0 <= RANK(c), RANK(c) < NK(sel(P, c)), KID(sel(P, c), RANK(c)) == c))))
+    E.assume(z3.ForAll([x], z3.Implies(Rn(x), SHARE(x) == share_term(t, acc, x))))
+    E.assume(SUMV(EMPTY) == 0)
+    E.assume(z3.ForAll([S, x], z3.Implies(z3.And(Rn(x), z3.Not(sel(S, x))), SUMV(z3.Store(S, x, z3.BoolVal(True))) == SUMV(S) + SHARE(x))))
+    E.assumptions.add("ghost definitions (C14 whole-tree statement): children_count / child / child_rank (children in table order), "
+                      "node_distance (non-negative root of the squared centre distance of two nodes; defining property instantiated at the edges of the leave step), node_share (the per-node inclusion-exclusion share, "
+                      f"written out for at most {MAXK} children), sum_of_node_shares (fold of node_share over a finite node set)")
+
+
+def gvfc_wf(which):
+    from contracts.C04 import depth
+
+    def f(E, v, o):
+        t = v["tree"]
+        n, P, ids = nof(t), col(t, "pid").arr, col(t, "id").arr
+        i = z3.Int(fresh_name("i"))
+        inr = z3.And(i > 0, i < n)
+        if which == "ids-are-positions":
+            return z3.ForAll([i], z3.Implies(z3.And(i >= 0, i < n), z3.Select(ids, i) == i))
+        if which == "node-0-is-the-root-and-parents-exist":
+            return z3.And(z3.Select(P, 0) == -1, z3.ForAll([i], z3.Implies(inr, z3.And(z3.Select(P, i) >= 0, z3.Select(P, i) < n))))
+        if which == "every-node-reaches-the-root":
+            return z3.And(depth(0) == 0, z3.ForAll([i], z3.Implies(inr, z3.And(depth(i) == depth(z3.Select(P, i)) + 1, depth(i) > 0))))
+        if which == "at-most-three-children-per-node":
+            return z3.ForAll([i], z3.Implies(z3.And(i >= 0, i < n), NK(i) <= MAXK))
+        if which == "from-level-3-positive-radii-and-distinct-neighbour-centres":
+            acc = to_z3(v["accuracy"], "int")
+            return z3.Implies(acc >= 3, z3.And(trad(t, 0) > 0, z3.ForAll([i], z3.Implies(inr, z3.And(trad(t, i) > 0, d2(tpos(t, z3.Select(P, i)), tpos(t, i)) > 0)))))
+        raise KeyError(which)
+
+    return (which, f)
+
+
+GVFC_WF = ["ids-are-positions", "node-0-is-the-root-and-parents-exist", "every-node-reaches-the-root", "at-most-three-children-per-node"]
+GVFC_PRE3 = "from-level-3-positive-radii-and-distinct-neighbour-centres"
+
+
+def gvfc_setup(equal_radii=False):
+    def setup(S):
+        eng = S.eng
+        base = getattr(eng, "_c14_base_registry", None) or eng.registry
+        eng._c14_base_registry = base
+        eng.registry = base if equal_radii else _Scoped(base, SFI_KEY, base[SFI_ASSUMED])
+        t = sym_tree(S, "t")
+        if equal_radii:
+            i = z3.Int(fresh_name("i"))
+            S.assume(z3.ForAll([i], trad(t, i) == trad(t, 0)))
+        return dict(tree=t, accuracy=S.int("accuracy"))
+
+    return setup
+
+
+def gvfc_child_value(E, node):
+    """the value `leave` returned for child `node`.  Ql determines it (centre, radius, handle, cached volume of THE sphere of the
+    node), so it is built from the node term directly (one-point rule) — the same terms the whole-tree statement is written in"""
+    from swcgeom.utils.volumetric_object import VolSphere
+
+    t = E.top_old["tree"]
+    cn, rn = tpos(t, node), trad(t, node)
+    c = NArr((3,), [Sym(a, "real") for a in cn], "real")
+    return Obj(VolSphere, dict(center=c, radius=Sym(rn, "real"), sdf=_handle(SDF_SPHERE(*cn, rn)), volume=Sym(z3.RealVal(4) / 3 * PI * (rn * rn * rn), "real")))
+
+
+def gvfc_Ql(E, v, x, val, ctx):
+    """the value left for node x is THE sphere of node x (centre, radius, SDF handle; its volume cache, if filled, holds the closed form)"""
+    from swcgeom.utils.volumetric_object import VolSphere
+
+    if not (isinstance(val, Obj) and val.cls is VolSphere):
+        return False
+    t = v["tree"]
+    cn, rn = tpos(t, x), trad(t, x)
+    cs, rs = sphere_geom(val)
+    cl = [rs == rn, val.fields["sdf"].z == SDF_SPHERE(*cn, rn)] + [a == b for a, b in zip(cs, cn)]
+    vol = val.fields.get("volume")
+    if vol is not None:
+        cl.append(R(vol) == z3.RealVal(4) / 3 * PI * (rn * rn * rn))
+    E.ghost.setdefault("c14-step-values", []).append((x, val))
+    return z3.And(*cl)
+
+
+def gvfc_J(E, v, ENT, LEFT, ctx):
+    """volume so far = sum of the shares of the nodes left so far"""
+    return R(v["volume"]) == SUMV(LEFT)
+
+
+def gvfc_step_hints(E, v, x, ctx):
+    """proof steps of the leave step (each its own obligation): per child, the distance the code computed is NDIST(node, child) and the
+    code's closed form of the frustum volume is the integral form (= the opaque name VFR)"""
+    t = v["tree"]
+    cn, rn = tpos(t, x), trad(t, x)
+    lab = "_get_volume_frustum_cone/traverse/leave/step"
+    steps = []
+    for j, (cz, val) in enumerate(E.ghost.get("c14-step-values", [])):
+        cc, rc = sphere_geom(val)
+        q = d2(cn, cc)
+        y = centre_distance(E, cn, cc)  # the root np.linalg.norm produced (one ghost root per argument polynomial)
+        d = NDIST(x, cz)
+        E.assume(z3.And(d >= 0, d * d == q))  # definition of the ghost function NDIST at this edge (q is a sum of squares)
+        _use(E, "nonneg-roots-of-equal-squares-are-equal", y, d)
+        E.prove(f"{lab}/distance-to-child-{j}-is-the-edge-length", y == d, "annotation")
+        before = list(E.pc)
+        E.assume(VFR(rn, rc, d) == V_fr_tot(rn, rc, d))  # definition of the ghost name
+        _use(E, "frustum-closed-form-is-the-integral-form", rn, rc, d)
+        step = z3.RealVal(1) / 3 * PI * d * (rn * rn + rn * rc + rc * rc) == VFR(rn, rc, d)
+        E.prove(f"{lab}/frustum-{j}-closed-form-is-the-integral-form", step, "annotation")
+        E.pc[:] = before + [step]
+        steps.append(step)
+    before = list(E.pc)
+    E.assume(VSPH(rn) == V_sphere(rn))  # definition of the ghost name
+    step = z3.RealVal(4) / 3 * PI * (rn * rn * rn) == VSPH(rn)
+    E.prove(f"{lab}/sphere-closed-form-is-the-integral-form", step, "annotation")
+    steps.append(step)
+    # what remains (the invariant after the step, the returned value) is linear arithmetic over atoms: the nonlinear hypotheses
+    # (definitions of roots, lemma instances, distinct-centre preconditions) are dropped -- weakening the context is always sound
+    # and keeps a FAILING obligation from sending the solver into nonlinear model search
+    E.pc[:] = [h for h in before if not _nonlinear(h)] + steps
+
+
+def _nonlinear(h):
+    stack, seen = [h], set()
+    while stack:
+        x = stack.pop()
+        if x.get_id() in seen:
+            continue
+        seen.add(x.get_id())
+        if z3.is_quantifier(x):
+            stack.append(x.body())
+            continue
+        if z3.is_app(x):
+            k = x.decl().kind()
+            ch = x.children()
+            if k == z3.Z3_OP_MUL and sum(1 for c in ch if not z3.is_rational_value(c) and not z3.is_int_value(c)) >= 2:
+                return True
+            if k in (z3.Z3_OP_DIV, z3.Z3_OP_IDIV, z3.Z3_OP_MOD) and not (z3.is_rational_value(ch[1]) or z3.is_int_value(ch[1])):
+                return True
+            if k == z3.Z3_OP_POWER:
+                return True
+            stack.extend(ch)
+    return False
+
+
+@_lemma("nonneg-roots-of-equal-squares-are-equal", 2)
+def _roots_equal(a, b):
+    return z3.Implies(z3.And(a >= 0, b >= 0, a * a == b * b), a == b)
+
+
+def gvfc_post(E, v, o):
+    acc = to_z3(o["accuracy"], "int")
+    return z3.If(acc <= 9, R(v["result"]) == SUMV(all_nodes(nof(o["tree"]))), R(v["result"]) == MCV)
+
+
+def gvfc_post_hint(E, vars):
+    """the node set the traversal covered (the subtree of node 0) is the set of all nodes"""
+    Sub = E.ghost.get("last-traverse-Sub")
+    if Sub is None:
+        return
+    x = z3.Int(fresh_name("x"))
+    E.prove("_get_volume_frustum_cone/step/traversal-covered-exactly-the-nodes-of-the-table",
+            z3.Lambda([x], Sub(x)) == all_nodes(nof(vars["tree"])), "annotation")
+
+
 def register(Rg: Registry):
     _make_fuv_usable_at_call_sites(Rg)
     Rg.add(f"{VOL}:_get_volume_frustum_cone.<locals>.leave", prop="C14",
@@ -365,16 +604,25 @@ def register(Rg: Registry):
            modifies=["self.cache_volume", "self.cache_volume_n_samples"],
            ensures=[("is-the-measure-of-the-denoted-set", lambda E, v, o: z3.And(R(v["result"]) == MU(v["self"].fields["sdf"].z), R(v["result"]) >= 0))])
 
+    # ------------------------------------------------------------------ _get_volume_frustum_cone (the summation)
+    from pyvc.traverse_rule import Rule
+
+    # ASSUMED (sampling): the level-10 worker returns some real, named MCV
+    Rg.add(f"{VOL}:_get_volume_frustum_cone_mc_only", prop="C14", trusted=True, returns="real",
+           ensures=[("is-the-monte-carlo-estimate", lambda E, v, o: R(v["result"]) == MCV)])
+    rule = Rule(gvfc_J, Ql=gvfc_Ql, modifies=[("local", "volume", "real")], leave_kind=gvfc_child_value, leave_arities=list(range(MAXK + 1)),
+                kids=(NK, KID, RANK), ghost_leave=gvfc_step_hints, fork_steps=True)
+    Rg.add(f"{VOL}:_get_volume_frustum_cone", prop="C14",
+           variants={"general-radii": gvfc_setup(False), "equal-radii": gvfc_setup(True)},
+           requires=[gvfc_wf(w) for w in GVFC_WF] + [("level-1-to-10", lambda E, v, o: z3.And(to_z3(v["accuracy"], "int") >= 1, to_z3(v["accuracy"], "int") <= 10)), gvfc_wf(GVFC_PRE3)],
+           ghost_entry=tree_vocabulary, returns="real",
+           ensures=[("volume-is-the-sum-over-all-nodes-of-the-nodes-inclusion-exclusion-share", gvfc_post)],
+           options=dict(traverse_rule=rule, hints={"post/volume-is-the-sum-over-all-nodes-of-the-nodes-inclusion-exclusion-share": gvfc_post_hint}),
+           notes="traverse client rule with J: volume = sum of node_share over the nodes left so far; the leave step runs the REAL closure for "
+                 "0..3 children (that no node has more is a precondition); variant general-radii: levels >= 3 relative to the assumed taper half "
+                 "of the sphere/frustum intersection; variant equal-radii (all radii equal): no assumed contract below level 5")
+
     # ------------------------------------------------------------------ get_volume (dispatcher)
-    # The analytic worker is seen through an ASSUMED, deliberately empty contract ("returns some real"): what is proved
-    # about get_volume is the argument plumbing only (which level reaches the worker, that its value is passed through).
-    def worker_result(S, fr):
-        r = S.real("worker_volume")
-        S.eng.spec_extra.setdefault("worker_results", []).append(r)
-        return r
-
-    Rg.add(f"{VOL}:_get_volume_frustum_cone", prop="C14", trusted=True, returns=worker_result, ensures=[])
-
     LEVELS = {"low": 3, "middle": 5, "high": 8}
 
     def gv_setup(acc, method="frustum_cone"):
@@ -387,15 +635,32 @@ def register(Rg: Registry):
     def level_of(a):
         return LEVELS.get(a) if isinstance(a, str) else a
 
+    def with_level(clause):
+        """a precondition of the worker, stated for get_volume's own `accuracy` (a level name stands for its number)"""
+        lab, f = clause
+
+        def g(E, v, o):
+            lvl = level_of(v["accuracy"])
+            if lvl is None:
+                return True  # unknown level name: the call raises before the worker is reached
+            return f(E, dict(v, accuracy=lvl), o)
+
+        return (lab, g)
+
     def gv_dispatch(E, v, o):
         calls = [vs for nm, vs in E.call_log if nm == "_get_volume_frustum_cone"]
-        rs = E.spec_extra.get("worker_results", [])
-        if len(calls) != 1 or len(rs) != 1 or calls[0]["tree"].uid != o["tree"].uid:
+        if len(calls) != 1 or calls[0]["tree"].uid != o["tree"].uid:
             return False
         lvl = level_of(o["accuracy"])
         if lvl is None:
             return False
-        return z3.And(to_z3(calls[0]["accuracy"], "int") == to_z3(lvl, "int"), R(v["result"]) == R(rs[0]))
+        return to_z3(calls[0]["accuracy"], "int") == to_z3(lvl, "int")
+
+    def gv_value(E, v, o):
+        lvl = level_of(o["accuracy"])
+        if lvl is None:
+            return False
+        return z3.If(to_z3(lvl, "int") <= 9, R(v["result"]) == SUMV(all_nodes(nof(o["tree"]))), R(v["result"]) == MCV)
 
     def gv_level_ok(E, v, o):
         lvl = level_of(o["accuracy"])
@@ -408,13 +673,16 @@ def register(Rg: Registry):
     Rg.add(f"{VOL}:get_volume", prop="C14",
            variants={"int-level": gv_setup(int), "low": gv_setup("low"), "middle": gv_setup("middle"), "high": gv_setup("high"),
                      "unknown-name": gv_setup("ultra"), "unknown-method": gv_setup(int, "voxel")},
+           requires=[gvfc_wf(w) for w in GVFC_WF] + [with_level(gvfc_wf(GVFC_PRE3))],
+           ghost_entry=tree_vocabulary,
            raises={"AssertionError": ("only-for-a-level-outside-1-to-10", gv_bad_level),
                    "KeyError": ("only-for-an-unknown-level-name", lambda E, v, o: isinstance(v["accuracy"], str) and v["accuracy"] not in LEVELS),
                    "ValueError": ("only-for-an-unknown-method", lambda E, v, o: v["method"] != "frustum_cone")},
-           ensures=[("names-map-to-3-5-8-and-one-call-of-the-worker-with-that-level-and-tree-whose-value-is-returned", gv_dispatch),
+           ensures=[("names-map-to-3-5-8-and-one-call-of-the-worker-with-that-level-and-tree", gv_dispatch),
+                    ("volume-is-the-sum-over-all-nodes-of-the-nodes-inclusion-exclusion-share-at-that-level", gv_value),
                     ("accepted-level-is-1-to-10", gv_level_ok),
                     ("method-is-frustum-cone", lambda E, v, o: o["method"] == "frustum_cone")],
-           notes="level names are concrete strings (variants); integer level symbolic")
+           notes="level names are concrete strings (variants); integer level symbolic; the worker is used through its VERIFIED contract")
 
 
 # ===========================================================================
